@@ -38,10 +38,21 @@ def run(ctx, drv):
         nobjs = rng.choice([1, 2, 2, 3, 3, 4])
         dirs = tuple(rng.random() < 0.3 for _ in range(nobjs))
         pts = indic.gen_points(rng, rng.randrange(3, 10), nobjs, lattice, -0.5, 1.5)
+        if rng.random() < 0.3:
+            pts.append(list(rng.choice(pts)))             # another solution object with the same objective vector
+            if rng.random() < 0.3:
+                pts.append(list(pts[-1]))
         cvs = [0.0 if rng.random() < 0.85 else float(rng.choice([1, 2])) for _ in pts]
         rpts = indic.gen_points(rng, rng.randrange(2, 6), nobjs, lattice, 0.0, 1.0)
         rpts[0] = [0.0] * nobjs
         rpts[1] = [1.0] * nobjs
+        if rng.random() < 0.12:
+            # a reference set that is constant in one objective (empty range): whatever the indicators do with it -- refuse it or not --
+            # they must do the same on the mirrored instance
+            j_ = rng.randrange(nobjs)
+            for q_ in rpts:
+                q_[j_] = 0.5
+            ctx.count("reference_sets_with_an_empty_range")
         eps = [rng.choice([0.25, 0.5, 0.125])] if lattice else [rng.choice([0.1, 0.3, 0.05])]
         if nobjs >= 3 and rng.random() < 0.5:
             # a partial epsilon list (the last value is reused for the remaining objectives) with different values
@@ -75,7 +86,7 @@ def run(ctx, drv):
             # bounded grid archive (PAES / PESA2): same members whatever the direction encoding, also when cells tie for the densest
             # (generic values only: on a lattice a point can sit exactly on a cell boundary, and the cells are half-open towards the
             # upper side of the raw value, so mirroring moves it to the neighbouring cell -- bookkeeping of C14, not a direction fact)
-            if not lattice:
+            if not lattice and all(v * 8 != math.floor(v * 8) for q_ in P for v in q_):       # no coordinate on the k/8 lattice (gen_points mixes a few in)
                 ga = C.AdaptiveGridArchive(rng_cap, nobjs, rng_div)
                 for s in sols:
                     if s.constraint_violation == 0:
